@@ -92,7 +92,7 @@ def step(
     if fraction:
         alpha = alpha_range[0] + fraction * (alpha_range[1] - alpha_range[0])
     else:
-        alpha = np.random.uniform(alpha_range[0], alpha_range[1])
+        alpha = sampler._rng.uniform(alpha_range[0], alpha_range[1])
 
     p = x + alpha * delta
 
@@ -111,7 +111,7 @@ def step(
                 "will help us to fix this."
             )
         logger.info("Found bounds infeasibility in sample, resetting to center.")
-        newdir = sampler.warmup[np.random.randint(sampler.n_warmup)]
+        newdir = sampler.warmup[sampler._rng.randint(sampler.n_warmup)]
         sampler.retries += 1
 
         return step(sampler, sampler.center, newdir - sampler.center, None, tries + 1)
